@@ -123,6 +123,9 @@ pub fn install_panic_hook() {
 pub fn run_case(exec: Exec, data: &[u32], mode: Mode, st: &mut Stats) -> Result<(), String> {
     let mut tape = Tape::new(data, mode);
     st.case_digest = 0;
+    if st.recording && st.first_case.is_none() {
+        st.first_case = Some((mode == Mode::Direct, data.to_vec()));
+    }
     let r = catch_unwind(AssertUnwindSafe(|| {
         // digest of the raw tape identifies the case for sub-case keys; decoded digest is used by exec
         let mut d = 0x51ed_270b_u64;
@@ -495,6 +498,19 @@ fn run_random(def: &PropDef, r: &RandomDef, cfg: &RunCfg, listed: &BTreeSet<Stri
     }
 }
 
+/// A stage whose property recorded no sample still shows what its cases look like: the first case it executed.
+fn fallback_sample(st: &mut Stats, exec: Exec, stage: &str, listed: &BTreeSet<String>) {
+    if !st.samples.is_empty() {
+        return;
+    }
+    if let Some((direct, tape)) = st.first_case.clone() {
+        let mode = if direct { Mode::Direct } else { Mode::Scaled };
+        if let Some(d) = describe_case(exec, &tape, mode, listed) {
+            st.samples.push(json!({"stage": stage, "first_case_of_stage": d}));
+        }
+    }
+}
+
 pub struct Outcome {
     pub violations: Vec<(Violation, PathBuf)>,
     pub known_lines: Vec<String>,
@@ -517,7 +533,8 @@ pub fn run_property(def: &PropDef, cfg: &RunCfg) -> Outcome {
     stages.push(info);
 
     for e in def.enums {
-        let out = run_enum(def, e, cfg, &listed);
+        let mut out = run_enum(def, e, cfg, &listed);
+        fallback_sample(&mut out.stats, e.exec.unwrap_or(def.exec), e.name, &listed);
         total.merge(out.stats);
         stages.push(out.info);
         if !e.exhaustive {
@@ -529,7 +546,8 @@ pub fn run_property(def: &PropDef, cfg: &RunCfg) -> Outcome {
         }
     }
     for (i, r) in def.randoms.iter().enumerate() {
-        let out = run_random(def, r, cfg, &listed, i as u64);
+        let mut out = run_random(def, r, cfg, &listed, i as u64);
+        fallback_sample(&mut out.stats, r.exec.unwrap_or(def.exec), r.name, &listed);
         total.merge(out.stats);
         stages.push(out.info);
         if let Some(v) = out.violation {
